@@ -77,7 +77,9 @@ Proof.
 Qed.
 
 (* ---------- scanner outputs ---------- *)
-Definition arch_from (P : ascii -> bool) (a : arch) : Prop := exists q, forallb P q = true /\ a = parse_arch q.
+Definition arch_from (P : ascii -> bool) (a : arch) : Prop := exists q, forallb P q = true /\ arch_ok q = true /\ a = parse_arch q.
+Lemma arch_named_inv name i a r : arch_named name i = Ok (a, r) -> arch_ok name = true /\ a = parse_arch name /\ r = i.
+Proof. unfold arch_named. destruct (arch_ok name); [|discriminate]. intros E. inversion E. auto. Qed.
 
 Lemma substvar_inv : forall i name p r, substvar_loop name i = Ok (p, r) -> forallb subc name = true -> wf_subst p.
 Proof.
@@ -87,13 +89,13 @@ Proof.
   - intros E H. apply (IH _ _ _ E). rewrite forallb_app, H. cbn. unfold subc. now rewrite C0, C125.
 Qed.
 
-Lemma multiarch_inv : forall i name a r, multiarch_loop name i = (a, r) -> forallb mac name = true ->
+Lemma multiarch_inv : forall i name a r, multiarch_loop name i = Ok (a, r) -> forallb mac name = true ->
   arch_from mac a /\ multiarch_stop (peek r) = true.
 Proof.
   induction i as [|c i IH]; intros name a r; cbn [multiarch_loop].
-  - intros E H. inversion E; subst. split; [exists name; auto|reflexivity].
+  - intros E H. apply arch_named_inv in E as (O&->&->). split; [exists name; auto|reflexivity].
   - destruct (multiarch_stop c) eqn:S.
-    + intros E H. inversion E; subst. split; [exists name; auto|exact S].
+    + intros E H. apply arch_named_inv in E as (O&->&->). split; [exists name; auto|exact S].
     + intros E H. apply (IH _ _ _ E). rewrite forallb_app, H. cbn. unfold mac. now rewrite S.
 Qed.
 
@@ -102,7 +104,7 @@ Proof.
   induction i as [|c i IH]; intros name a r; cbn [arch_name_loop]; [discriminate|].
   destruct (eqc c 0) eqn:C0; [discriminate|]. destruct (eqc c 33) eqn:C33; [discriminate|].
   destruct (eqc c 93 || is_ws c) eqn:S.
-  - intros E H. inversion E; subst. exists name. auto.
+  - intros E H. apply arch_named_inv in E as (O&->&_). exists name. auto.
   - intros E H. apply (IH _ _ _ E). rewrite forallb_app, H. cbn. unfold archc. apply orb_false_iff in S as [S1 S2].
     now rewrite C0, C33, S1, S2.
 Qed.
@@ -308,7 +310,7 @@ Lemma possi_loop_inv : forall f p rel i rel' r, possi_loop f p rel i = Ok (rel',
 Proof.
   induction f as [|f IH]; intros p rel i rel' r E I J G; [discriminate|]. rewrite possi_loop_S in E. cbv zeta in E.
   destruct (eqc (peek i) 58) eqn:H58.
-  - unfold parse_multiarch in E. destruct (multiarch_loop [] (adv i)) as [a i1] eqn:M.
+  - unfold parse_multiarch in E. destruct (multiarch_loop [] (adv i)) as [[a i1]| |] eqn:M; try discriminate.
     destruct (multiarch_inv _ _ _ _ M eq_refl) as [Af St].
     eapply IH; [exact E| | |exact G].
     + destruct I as [A B C D F H K]. constructor; cbn; auto.
